@@ -11,7 +11,7 @@ CLAIMS = {
          "Decides that no token/child/value field of any go/ast node type is dropped in either direction and that no converter assertion can fail; does not decide text equality after go/printer.", "4 C03"),
  "C04": ("render-site analysis of the generated restorer against go/types Decs structs, fragger order and listing/accessor",
          "Each decoration point rendered exactly once, unconditionally, after its namesake; listing/accessor clauses decided; placement is relative to synthetic positions, not through go/printer.", "4 C04"),
- "C05": ("constant propagation through applySpace over its complete 24-class input partition + symbolic effect of every line-break block over the entry cursor (recorded line start, exit cursor, fresh-line marker)",
+ "C05": ("abstract interpretation of the restorer's line-break state machine: applySpace over its complete 24-class input partition, applyDecorations against a reference machine by product fixpoint over all decoration lists (5 decoration classes x 16 environments), plus the symbolic effect of every line-break block over the entry cursor (recorded line start, exit cursor)",
          "Decides the restorer's half of the non-additive spacing rule (number of line breaks handed to go/printer per SpaceType and fresh-line state); the visible max(After,Before) outcome is produced by go/printer and is not decided.", "4 C05"),
  "C06": ("per-field completeness + alias-freedom analysis of Clone against restore's reads and go/types struct facts",
          "Decides Clone completeness/alias-freedom and duplicate rejection structurally for every node type.", "4 C06"),
